@@ -144,7 +144,18 @@ def check_history(c):
     obj = guard(MD6, c["d"], c["key"], c["L"]) if c["key"] else guard(MD6, c["d"], L=c["L"])
     obj.rounds = c["rounds"]
     rounds = c["rounds"]
+    sib = None
+    if c.get("sib"):
+        # another configuration (digest size, key, mode, rounds), built after obj and used between its calls
+        sd, sL, sr = {8: 160, 160: 256, 256: 300, 300: 512, 512: 8}[c["d"]], {0: 64, 1: 0, 64: 1}[c["L"]], c["rounds"] % 4 + 1
+        skey = b"" if c["key"] else b"sibling key"
+        sib = guard(MD6, sd, skey, sL) if skey else guard(MD6, sd, L=sL)
+        sib.rounds = sr
     for i, entry in enumerate(c["msgs"]):
+        if sib is not None and i % 2 == 1:
+            sm = bytes(range(i, i + 90))
+            if guard(sib, sm) != R.md6(sm, None, d=sd, key=skey, L=sL, r=sr):
+                raise Violation("md6:reused-object:sibling-object!=spec", None, None)
         M, bl = entry[0], entry[1]
         if len(entry) > 2:
             rounds = obj.rounds = entry[2]      # the round count is the object's public knob (the repository's tests set it too)
@@ -160,9 +171,9 @@ def check_history(c):
 def history_strategy(tier):
     msg = st.tuples(gen.blob_of(gen.pick((2, gen.uint(0, 600)), (1, gen.uint(601, 2600)))), gen.uint(0, 9), gen.pick((2, st.just(0)), (1, gen.uint(1, 6)))).map(
         lambda t: (t[0], 8 * len(t[0]) + 3 if t[1] == 9 else None if t[1] > 6 or not t[0] else 8 * len(t[0]) - t[1]) + ((t[2],) if t[2] else ()))
-    return st.builds(lambda d, L, key, r, msgs: {"d": d, "L": L, "key": key, "rounds": r,
+    return st.builds(lambda d, L, key, r, msgs, sib: {"d": d, "L": L, "key": key, "rounds": r, "sib": sib,
                                                  "msgs": tuple(msgs) + ((b"after", None),) * (msgs[-1][1] is not None and msgs[-1][1] > 8 * len(msgs[-1][0]))},
-                     st.sampled_from([8, 160, 256, 300, 512]), st.sampled_from([0, 1, 64]), keys(), gen.uint(1, 4), st.lists(msg, min_size=2, max_size=4))
+                     st.sampled_from([8, 160, 256, 300, 512]), st.sampled_from([0, 1, 64]), keys(), gen.uint(1, 4), st.lists(msg, min_size=2, max_size=4), st.booleans())
 
 
 FACETS = [
@@ -179,7 +190,8 @@ FACETS = [
     Facet("reused-object", check_history, strategy=history_strategy, budget={"quick": 800, "thorough": 8000}, shards={"quick": 16, "thorough": 32},
           nontrivial=lambda c: True, suppress_too_slow=True,
           classify=lambda c: ("L=%d" % c["L"], "rounds changed between calls" if any(len(e) > 2 for e in c["msgs"][1:]) else "rounds fixed",
-                              "has over-long bitlen call" if any(e[1] is not None and e[1] > 8 * len(e[0]) for e in c["msgs"]) else "all calls valid"),
+                              "has over-long bitlen call" if any(e[1] is not None and e[1] > 8 * len(e[0]) for e in c["msgs"]) else "all calls valid",
+                              "sibling object with another configuration" if c.get("sib") else "no sibling"),
           rule="2..5 messages (byte and bit lengths) hashed one after the other by ONE MD6 object, the round count raised or lowered between "
                "calls in a third of them, one call in ten with a bit length beyond the data (not judged, the calls after it are)"),
 ]
